@@ -48,11 +48,19 @@ SetOf(V, kind) ==
 Structural(V) == LET W == Width(V) IN
   {a \in {-1, 0, 1, W - 1, W, W + 1, 2 * W - 1, 2 * W, V \div 2, V - W - 1, V - W, V - W + 1, V - 2, V - 1, V, V + 1,
           (V \div W) * W - 1, (V \div W) * W, ((V - 1) \div W) * W} : a >= -1 /\ a <= V + 1}
+\* key ids asked of ValidatorManager.IsNeighbor for probe a: every id for small sets; for large ones the
+\* keys of all related validators plus a residue class of unrelated ids
+AllIds(u) == [i \in 1..u |-> i - 1]
+KeyQueries(s, V, u, a) ==
+  IF V <= SmallV THEN AllIds(u)
+  ELSE SetToSeq(NbrKeys(s.cur, s.prev, s.next, a) \cup {id \in 0..(u - 1) : id % 41 = (a + 41) % 41})
 SetCase(V, kind) ==
-  LET s == SetOf(V, kind) IN
-  [kind |-> "set", tag |-> kind, cur |-> s.cur, prev |-> s.prev, next |-> s.next, u |-> 3 * V + 4,
-   matrix |-> IF V <= SmallV /\ kind = "same" THEN 1 ELSE 0,          \* the pair matrix depends on V only
-   probes |-> IF V <= SmallV THEN [i \in 1..(V + 2) |-> i - 2] ELSE SetToSeq(Structural(V))]
+  LET s == SetOf(V, kind)
+      u == 3 * V + 4
+      pr == IF V <= SmallV THEN [i \in 1..(V + 2) |-> i - 2] ELSE SetToSeq(Structural(V))
+  IN [kind |-> "set", tag |-> kind, cur |-> s.cur, prev |-> s.prev, next |-> s.next, u |-> u,
+      matrix |-> IF V <= SmallV /\ kind = "same" THEN 1 ELSE 0,          \* the pair matrix depends on V only
+      probes |-> [i \in 1..Len(pr) |-> [a |-> pr[i], kq |-> IF pr[i] >= 0 /\ pr[i] < V THEN KeyQueries(s, V, u, pr[i]) ELSE <<>>]]]
 KindFor(V) == CHOOSE k \in Kinds : \E i \in 0..8 : i = V % 9 /\ k = <<"same", "rot1", "rotW", "fresh", "short", "long", "empty", "dup", "swap">>[i + 1]
 BigQuick == {48, 49, 50, 63, 64, 65, 99, 100, 101, 341, 342, 1023, 1024, 1025, 1088, 1089, 1090, 1100}
 SetCases ==
